@@ -435,7 +435,14 @@ func (u *Unit) execAssign(st *State, x *ast.AssignStmt) {
 			}
 		}
 		lv := u.evalLV(st, l)
-		u.store(st, lv, u.convert(st, vals[i], lv.T))
+		cv := u.convert(st, vals[i], lv.T)
+		u.store(st, lv, cv)
+		if ix, ok := ast.Unparen(l).(*ast.IndexExpr); ok && lv.kind == lvMap && len(u.frames) == 1 {
+			// anchor "mapstore:<map expression>": $k the key, $v the value just stored
+			if kt := u.typeOf(ix.Index); kt != nil {
+				u.runAnchorsNamed(st, "mapstore:"+exprText(ix.X), l.Pos(), map[string]Value{"$k": scalar(kt, lv.idx), "$v": cv})
+			}
+		}
 	}
 }
 
